@@ -10,7 +10,7 @@ import os
 from . import adapter, par, tlc
 from .common import Check
 
-VALTXT = {"val:3": "3", "val:3 * (2 + 1)": "3 * (2 + 1)", "val:'a(b'": "'a(b'"}
+VALTXT = {"val:3": "3", "val:3 * (2 + 1)": "3 * (2 + 1)", "val:'a(b'": "'a(b'", "val:max(1, 2)": "max(1, 2)", "val:'(a, i0)!'": "'(a, i0)!'"}
 
 
 def decl_line(st, k):
@@ -192,13 +192,13 @@ def check_file(job):
     return [(t, dict(x, file=lines if len(lines) < 60 else None)) for t, x in bad]
 
 
-ARGTXT = {"plain": "x1", "nested": "f(1, 2)", "string": "'stop! a,b'", "kw2": "p2=y", "kw3": "p3=z"}
+ARGTXT = {"plain": "x1", "nested": "f(1, 2)", "string": "'stop! a,b'", "kw2": "p2=y", "kw3": "p3=z", "cmp": "p2 == 0"}
 
 
 def check_calls(states):
     hdr = ["module mc", "  implicit none", "contains", "  integer function f(a, b)", "    integer :: a, b", "    f = a + b", "  end function f",
            "  subroutine tgt(p1, p2, p3)", "    integer :: p1", "    integer :: p2", "    character(len=*), optional :: p3", "  end subroutine tgt",
-           "  subroutine caller()", "    integer :: x1, y", "    character(len=3) :: z"]
+           "  subroutine caller()", "    integer :: x1, y, p2", "    character(len=3) :: z"]
     lines = list(hdr)
     sites = []
     for st in states:
@@ -211,6 +211,8 @@ def check_calls(states):
         cols = {off, off + len(a)}
         if st["call"][i] == "plain":
             cols.add(off + 1)
+        if st["call"][i] == "cmp":
+            cols.add(off + 6)     # behind the "=="
         if st["call"][i] in ("kw2", "kw3"):
             # the server sees the text up to the cursor: the keyword counts once "name=" has been typed
             cols = {off + 3, off + len(a)}
